@@ -1,13 +1,20 @@
 //! Client of the persistent Node worker (`/verif/node/worker.js`): JSON lines over stdin/stdout.
 use serde_json::Value;
 use std::io::{BufRead, BufReader, Write};
-use std::process::{Child, ChildStdin, ChildStdout, Command, Stdio};
+use std::process::{Child, ChildStdin, Command, Stdio};
+use std::sync::mpsc::{channel, Receiver, RecvTimeoutError};
+use std::time::Duration;
 
 pub struct Worker {
     child: Child,
     stdin: ChildStdin,
-    stdout: BufReader<ChildStdout>,
+    lines: Receiver<std::io::Result<String>>,
     pub requests: u64,
+}
+
+/// a request that takes longer than this is abandoned (worker killed, case inconclusive)
+fn request_timeout() -> Duration {
+    Duration::from_secs(std::env::var("VERIF_NODE_TIMEOUT_SECS").ok().and_then(|s| s.parse().ok()).unwrap_or(60))
 }
 
 impl Worker {
@@ -22,8 +29,25 @@ impl Worker {
             .spawn()
             .map_err(|e| format!("cannot start node: {e}"))?;
         let stdin = child.stdin.take().unwrap();
-        let stdout = BufReader::new(child.stdout.take().unwrap());
-        Ok(Worker { child, stdin, stdout, requests: 0 })
+        let mut stdout = BufReader::new(child.stdout.take().unwrap());
+        let (tx, lines) = channel();
+        // reader thread: lets `request` wait with a timeout; ends when the worker's output closes
+        std::thread::spawn(move || loop {
+            let mut resp = String::new();
+            match stdout.read_line(&mut resp) {
+                Ok(0) => break,
+                Ok(_) => {
+                    if tx.send(Ok(resp)).is_err() {
+                        break;
+                    }
+                }
+                Err(e) => {
+                    let _ = tx.send(Err(e));
+                    break;
+                }
+            }
+        });
+        Ok(Worker { child, stdin, lines, requests: 0 })
     }
 
     pub fn request(&mut self, req: &Value) -> Result<Value, String> {
@@ -32,11 +56,12 @@ impl Worker {
         line.push('\n');
         self.stdin.write_all(line.as_bytes()).map_err(|e| format!("worker write: {e}"))?;
         self.stdin.flush().map_err(|e| format!("worker flush: {e}"))?;
-        let mut resp = String::new();
-        let n = self.stdout.read_line(&mut resp).map_err(|e| format!("worker read: {e}"))?;
-        if n == 0 {
-            return Err("worker closed its output".into());
-        }
+        let resp = match self.lines.recv_timeout(request_timeout()) {
+            Ok(Ok(l)) => l,
+            Ok(Err(e)) => return Err(format!("worker read: {e}")),
+            Err(RecvTimeoutError::Timeout) => return Err("worker did not answer in time (killed)".into()),
+            Err(RecvTimeoutError::Disconnected) => return Err("worker closed its output".into()),
+        };
         serde_json::from_str(&resp).map_err(|e| format!("worker sent bad json: {e}"))
     }
 }
